@@ -178,7 +178,7 @@ def run():
     chk = Check("C16")
     rng = random.Random(SEED * 7919 + 16)
     cases = []
-    for i in range(2500 if QUICK else 40000):
+    for i in range(2500 if QUICK else 200000):
         a = gen.random_abstract(rng, N=rng.randint(2, 7), K=rng.randint(1, 6), max_edges=12, nsites=4, nmuts=4, nalleles=4)
         if sum(a["flags"]) == 0:
             continue        # a VCF needs at least one sample column (outside the property's domain)
